@@ -161,7 +161,7 @@ def run(ctx):
                 "grid": [] if gv.t is None else [[len(gv.t), int(round(gv.dw * len(gv.t) / (2 * math.pi) / 1e6))]],
                 "custom": real_state()}
 
-    ntr = 40 if T else 8
+    ntr = 100 if T else 8
     for tr in range(ntr):
         gv.clean()
         trace = []
@@ -211,7 +211,7 @@ def world(ctx, rnd, T):
     F, RANDOM = wl.funcs()
     det = sorted(set(F) - RANDOM)
     names = [n for n, v in F.items() for _ in range(v[2])]
-    ntr, nlen = (12, 250) if T else (3, 120)
+    ntr, nlen = (20, 300) if T else (3, 120)
     for tr in range(ntr):
         cfg = (rnd.choice([8, 16]), rnd.choice([1e9, 2.5e9]), None)
         wl.configure(*cfg)
